@@ -85,6 +85,8 @@ class Contract:
     theories: tuple = ()                             # opt-in background facts (e.g. 'strided_ranges')
     ghost_sets: list = field(default_factory=list)   # [(target 'obj.ghost_field', value expr)]: ghost update at normal exit
     fresh_result: bool = False                        # the returned container is newly built (callers may mutate it)
+    call_demands: dict = field(default_factory=dict)  # callee qualname -> [(label, expr over the callee's parameters and this
+                                                      # contract's lets)]: extra obligations at every call of that callee
 
 
 REGISTRY: dict[str, Contract] = {}
@@ -111,7 +113,7 @@ def contract(key, *, props=(), params=None, closure=None, result=None, requires=
              raises=(), may_raise=(), modifies=(), loops=None, mode='contract', self_cls=None,
              lets=None, trusted=False, note='', float_mode='R', covers=(), locals=None, exsures=(),
              unknown_may_raise=False, hints=(), ranks=None, definitions=(), class_map=None, theories=(),
-             ghost_sets=(), fresh_result=False):
+             ghost_sets=(), fresh_result=False, call_demands=None):
     props = tuple(props)
     lp = {}
     for k, v in (loops or {}).items():
@@ -136,6 +138,7 @@ def contract(key, *, props=(), params=None, closure=None, result=None, requires=
         unknown_may_raise=unknown_may_raise, hints=_clauses(hints, props), ranks=dict(ranks or {}),
         definitions=_clauses(definitions, props), class_map=dict(class_map or {}), theories=tuple(theories),
         ghost_sets=[tuple(g) for g in ghost_sets], fresh_result=fresh_result,
+        call_demands={k: [Clause(l, t, props) for l, t in v] for k, v in (call_demands or {}).items()},
     )
     REGISTRY[key] = c
     return c
